@@ -1262,6 +1262,15 @@ func runC07Crash(c C07CrashCase) *vkit.Outcome {
 			}
 		}
 		steps := strings.Join(f.steps, " ")
+		if f.renamed && !f.renameFailed && f.written == 0 && f.writtenAfterRen == 0 && len(after) > 0 {
+			// the trace shows a rename of a file nothing was written to, yet the file that the save left behind
+			// has content: strace lost the write (and fsync) calls of this save (seen when the machine is heavily
+			// loaded). Nothing can be concluded from such a trace.
+			o.Excluded(pC07)
+			o.Class("infrastructure:strace-lost-syscalls")
+			vkit.Note(pC07, fmt.Sprintf("strace lost syscalls of save #%d (%s): trace shows %q, the file has %d bytes", i, c.Kind, steps, len(after)))
+			return o
+		}
 
 		// --- crash images of this save (model: un-fsynced bytes of a file may be lost; rename is atomic)
 		// a crash between open/write/fsync and the rename leaves the previous offsets file (plus a stray
